@@ -18,7 +18,7 @@ import copy
 from .planlang import DS, M, SEQ
 
 DEVICES = {
-    "dets": {"d1": {"trigger_delay": 0.05}, "d2": {"keys": ["d2a", "d2b"], "salt": 7.0}, "d3": {"salt": 3.0, "cfg": {"gain": 1}}},
+    "dets": {"d1": {"trigger_delay": 0.05}, "d2": {"keys": ["d2a", "d2b"], "salt": 7.0}, "d3": {"salt": 3.0, "cfg": {"gain": 1}}, "d4": {"salt": 4.0, "stage_status": 0.05}},
     "motors": {"m1": {"delay": 0.1}, "m2": {"pos": 1.0}},
     "sigs": {"s1": {"value": 1.0}, "s2": {"value": 5.0}},
     "flyers": {"f1": {"n_events": 2}, "f2": {"n_events": 1, "pages": True}},
@@ -42,6 +42,7 @@ class _B:
         self.staged = []
         self.resumable = True
         self.n_msgs = 0
+        self.n_pause = 0
 
     def group(self):
         self.gid += 1
@@ -72,13 +73,23 @@ class _B:
         elif self.chance(0.6):
             m = self.choice(MOTORS)
             g = self.group()
-            nodes += [M("set", m, float(self.int(-3, 3)) / 2, group=g), M("wait", None, group=g)]
+            if self.chance(0.25):
+                # move and trigger concurrently; wait for the detectors while watching the motor's group
+                g2 = self.group()
+                nodes.append(M("set", m, float(self.int(-3, 3)) / 2, group=g))
+                for d in dets:
+                    nodes.append(M("trigger", d, group=g2))
+                nodes += [M("wait", None, group=g2, watch=[g]), M("wait", None, group=g, watch=[g2])]
+                dets_triggered = True
+            else:
+                nodes += [M("set", m, float(self.int(-3, 3)) / 2, group=g), M("wait", None, group=g)]
         else:
             m = None
-        g = self.group()
-        for d in dets:
-            nodes.append(M("trigger", d, group=g))
-        nodes.append(M("wait", None, group=g))
+        if not any(n[1] == "trigger" for n in nodes):
+            g = self.group()
+            for d in dets:
+                nodes.append(M("trigger", d, group=g))
+            nodes.append(M("wait", None, group=g))
         stream = self.choice(["primary", "primary", "aux"])
         # a stream keeps one object set: encode the object set in the stream name
         objs = list(dets) + ([m] if m else [])
@@ -92,6 +103,8 @@ class _B:
     def misc(self, key):
         r = self.runs[key]
         opts = ["null", "sleep", "checkpoint"]
+        if self.profile in ("general", "lifecycle", "nonresumable", "replay", "suspend") and self.n_pause < 2:
+            opts += ["pause"]
         if self.profile == "replay_data":
             opts += ["monitor", "flyer", "subscribe", "configure", "stage_pair"]
         if self.profile in ("general", "replay", "keys", "lifecycle", "defer", "suspend"):
@@ -99,6 +112,9 @@ class _B:
         if self.profile == "replay":
             opts += ["monitor", "rewindable", "stage_pair", "subscribe"]
         o = self.choice(opts)
+        if o == "pause":
+            self.n_pause += 1
+            return [M("pause", None, defer=True)] if self.chance(0.3) else [M("pause")]
         if o == "null":
             return [M("null", None, self.int(0, 9))]
         if o == "sleep":
@@ -142,9 +158,21 @@ class _B:
         if o == "configure":
             return [M("configure", "d3", {"gain": self.int(1, 5)}, run=key)]
         if o == "stage_pair":
-            d = self.choice(DETS)
+            d = self.choice(DETS + ["d4", "d4"])
             if d in self.staged:
                 return [M("null")]
+            if d == "d4":
+                # stage()/unstage() return Status objects: the plan waits for them
+                g1, g2 = self.group(), self.group()
+                return [
+                    M("stage", d, group=g1),
+                    M("wait", None, group=g1),
+                    M("null", None, "staged"),
+                    M("unstage", d, group=g2),
+                    M("null", None, "unstaged"),
+                    M("wait", None, group=g2),
+                    M("sleep", None, 0.1),
+                ]
             return [M("stage", d), M("null", None, "staged"), M("unstage", d), M("null", None, "unstaged"), M("sleep", None, 0.1)]
         return [M("null")]
 
@@ -243,7 +271,9 @@ class _B:
                 body += self.one_run(None, size, last=(i == nruns - 1))
         if self.profile in ("general", "errors") and self.chance(0.15):
             pos = self.int(0, len(body))
-            body.insert(pos, ["raise", "PlanError", "generated failure"])
+            exc = self.choice(["PlanError", "PlanError", "KeyError", "ValueError", "RuntimeError"])
+            arg = self.choice(["generated failure", "generated failure", 2, ""])
+            body.insert(pos, ["raise", exc, arg])
         body = SEQ(*body)
         # cleanup structure
         style = self.choice(["none", "try_finally", "finalize", "contingency"]) if self.profile not in ("replay", "replay_data") else self.choice(["none", "try_finally"])
@@ -339,7 +369,7 @@ def cases(profile="general"):
             for _ in range(draw(st.integers(1, 3))):
                 stages.append({"do": draw(st.sampled_from(["resume", "resume", "abort", "stop", "halt"]))})
         case["stages"] = stages
-        if profile in ("general", "errors") and draw(st.integers(0, 2 if profile == "general" else 0)) == 0:
+        if profile in ("general", "errors") and draw(st.integers(0, 1 if profile == "general" else 0)) == 0:
             if b.staged and draw(st.booleans()):
                 # faults inside staging / cleanup of a device the plan really stages
                 dev = draw(st.sampled_from(sorted(b.staged)))
@@ -351,7 +381,7 @@ def cases(profile="general"):
                 else:
                     op = draw(st.sampled_from(["trigger", "read", "unstage", "stage"]))
             kind = "raise"
-            if op in ("set", "trigger") and draw(st.booleans()):
+            if op in ("set", "trigger") and draw(st.integers(0, 2)) > 0:
                 kind = "status_fail"
             f = {"dev": dev, "op": op, "n": draw(st.integers(1, 3)), "kind": kind}
             if kind == "status_fail":
